@@ -377,14 +377,14 @@ theorem name_sound (w : World) (r : Res Bytes) (h : Spec.name w = some r) : name
   · simp only [hg, if_true, Option.some.injEq] at h
     rw [← h]
     simp [name, procName_eq, hg]
-  · simp only [hg, if_false] at h
+  · simp only [hg] at h
     have hd : w.dirExists = true := by
       cases hx : w.dirExists <;> simp [hx] at hg ⊢
     by_cases hr : (!w.statReadable) = true
     · simp only [hr, if_true, Bool.false_eq_true, if_false, Option.some.injEq] at h
       rw [← h]
       simp [name, procName_eq, hg, hr]
-    · simp only [hr, if_false] at h
+    · simp only [hr] at h
       by_cases hlen : w.comm.length < commMax
       · simp only [hlen, if_true, Bool.false_eq_true, if_false, Option.some.injEq] at h
         rw [← h]
